@@ -69,6 +69,13 @@ class Contract:
         """positional args / kwargs for the call, default: parameters by name"""
         return None
 
+    def small(self, inp):
+        """optional extra constraint used only to pick a SMALL counter-model for replay"""
+        n = inp.get('n') if isinstance(inp, dict) else None
+        if n is not None and is_sym(n):
+            return n <= 3
+        return None
+
     # -- summary use --------------------------------------------------------
     def key(self):
         rel, q = frontend.parse_target(self.target)
@@ -254,6 +261,14 @@ def discharge(ob, timeout_ms=None):
     elif r == z3.sat:
         ob.status = 'sat'
         ob.model = s.model()
+        hint = ob.meta.get('small') if ob.meta else None
+        if hint is not None and is_sym(hint):
+            s.set('timeout', 5000)
+            s.push()
+            s.add(hint)
+            if s.check() == z3.sat:
+                ob.model = s.model()   # a small counter-example replays more easily
+            s.pop()
     else:
         text = _smt2(ob.pc, goal)
         tsec = timeout_ms // 1000
@@ -406,7 +421,12 @@ def verify(contract, max_paths=None):
                     kind = 'lemma' if nm.startswith('lemma:') else 'post'
                     ctx.prove(nm, f, kind)
                     ob = ctx.obligations[-1]
+                    try:
+                        ob.meta['small'] = contract.small(inp)
+                    except Exception:
+                        pass
                     discharge(ob)
+                    ob.meta.pop('small', None)
                     if is_sym(f) and ob.status == 'unsat':
                         ctx.pc.append(f)
             else:
@@ -439,7 +459,14 @@ def verify(contract, max_paths=None):
             seen_names[base] = k + 1
             oname = '%s@path%d' % (base, k)
             if ob.status is None:
+                try:
+                    sm = contract.small(inp) if inp is not None else None
+                except Exception:
+                    sm = None
+                if sm is not None:
+                    ob.meta['small'] = sm
                 discharge(ob)
+                ob.meta.pop('small', None)
             d = dict(name=oname, kind=ob.kind, status=ob.status, solver=ob.solver,
                      time=round(ob.time, 4), formula=_show(ob.goal), npc=len(ob.pc))
             if ob.meta:
